@@ -242,7 +242,7 @@ def calls_queries_BaseQuery : List (String × List String) := [
   ("__hash__", ["hash"]),
   ("__getattr__", ["<raise RuntimeError>", "RuntimeError", "self.is_hashable", "type", "type(self)"]),
   ("__getitem__", ["self.__getattr__"]),
-  ("_generate_simple_query", ["<except TypeError>", "<raise RuntimeError>", "<raise TypeError>", "RuntimeError", "SimpleQuery", "TypeError", "_.astimezone", "hash", "isinstance", "self.is_hashable"]),
+  ("_generate_simple_query", ["<except OverflowError>", "<except TypeError>", "<raise RuntimeError>", "<raise TypeError>", "RuntimeError", "SimpleQuery", "TypeError", "_.astimezone", "hash", "isinstance", "self.is_hashable"]),
   ("_generate_simple_query.test", ["<except Exception>", "_"]),
   ("_generate_simple_query.path_resolver", ["<except Exception>", "<raise e>", "_", "isinstance"]),
   ("__eq__", ["self._generate_simple_query"]),
